@@ -18,6 +18,12 @@ var (
 	vfC02Names   = []string{"f1", "f2", "f3"}
 	vfC02Kinds   = []string{"VfC02KA", "VfC02KB", "VfC02KA", "VfC02KB", "VfC02KC"}
 	vfC02Aliases = []string{"a", "b", "c"}
+	// near-miss spellings of the reserved word: only the exact string "END" is
+	// the built-in filter / the terminal jump target
+	vfC02NearEnd = []string{"end", "End", "eND", " END", "END ", "ENDX", "EN"}
+	// namespaces incl. blank ones and ones that differ only by leading /
+	// trailing blanks or case: only the exact empty string means DEFAULT
+	vfC02Nss = []string{"n1", "n2", "n1", "n2", "DEFAULT", " ", "  ", "n1 ", " n1", "N1", "default", "DEFAULT "}
 )
 
 func vfC02EffAlias(n *VfC02Node) string {
@@ -45,7 +51,7 @@ func (g *vfC02G) spec(maxNodes int) VfC02Spec {
 		case 2:
 			decls[g.r.Intn(nd)].Kind = "VfC02Nope"
 		case 3:
-			decls[g.r.Intn(nd)].Name = g.pick("Bad Name", "", "a/b", "x_y")
+			decls[g.r.Intn(nd)].Name = g.pick("Bad Name", "", "a/b", "x_y", "end", "End", "end", "e-n-d")
 		case 4:
 			decls = []VfC02Decl{}
 		case 5:
@@ -77,7 +83,7 @@ func (g *vfC02G) spec(maxNodes int) VfC02Spec {
 				aliasP = 2
 			}
 			if g.chance(1, aliasP) {
-				nd.Alias = g.pick("a", "b", "c", "f1", "f2")
+				nd.Alias = g.pick("a", "b", "c", "f1", "f2", "end", "END ")
 			}
 			continue
 		}
@@ -89,17 +95,23 @@ func (g *vfC02G) spec(maxNodes int) VfC02Spec {
 		if g.chance(1, 80) {
 			nd.Filter = "fx"
 		}
-		switch k := g.r.Intn(20); {
-		case k < 10:
-		case k < 17:
+		nearP := 3 // of 24
+		if g.adv {
+			nearP = 8
+		}
+		switch k := g.r.Intn(24); {
+		case k < nearP:
+			nd.Alias = g.pickFrom(vfC02NearEnd)
+		case k < 12:
+		case k < 20:
 			nd.Alias = g.pickFrom(vfC02Aliases)
-		case k < 19:
+		case k < 23:
 			nd.Alias = g.pickFrom(vfC02Names)
 		default:
 			nd.Alias = BuiltInFilterEnd
 		}
 		if g.chance(1, 2) {
-			nd.Ns = g.pick("n1", "n2", "n1", "n2", "DEFAULT")
+			nd.Ns = g.pickFrom(vfC02Nss)
 		}
 	}
 	for i := range nodes {
@@ -154,8 +166,10 @@ func (g *vfC02G) spec(maxNodes int) VfC02Spec {
 				switch j := g.r.Intn(8); {
 				case j < 2:
 					jm[res] = g.pickFrom(earlier)
-				case j < 4:
+				case j < 3:
 					jm[res] = g.pickFrom(vfC02Aliases)
+				case j < 4:
+					jm[res] = g.pickFrom(vfC02NearEnd)
 				case j < 7 && len(laterE) > 0:
 					jm[res] = g.pickFrom(laterE)
 				case j < 7 && len(laterF) > 0:
